@@ -16,6 +16,7 @@ pub mod c11;
 pub mod c20;
 pub mod c12;
 pub mod c13;
+pub mod c14;
 pub mod c15;
 pub mod c16;
 pub mod c19;
@@ -71,6 +72,7 @@ pub fn run(a: &Args) {
         "c20" => c20::run(a),
         "c12" => c12::run(a),
         "c13" => c13::run(a),
+        "c14" => c14::run(a),
         "c15" => c15::run(a),
         "c16" => c16::run(a),
         "c19" => c19::run(a),
